@@ -1,5 +1,5 @@
 (* C14 — HTTP: a cache hit replays the origin response faithfully. Statements over HttpModel's capturing writer composed with the net/http reference writer (HttpProofs.v). Isolation from later mutation (aliasing) is not expressible in a value-semantics model and is decided by the harness attack in the http stream. Only `exact` + Print Assumptions. *)
-Require Import KV.Base KV.HttpModel KV.HttpProofs.
+Require Import KV.Base KV.HttpModel KV.HttpProofs KV.AliasModel KV.AliasProofs.
 Open Scope Z_scope.
 
 (* for every handler script without Hijack: status, header snapshot (+ the MISS marker) and body captured are exactly what the client was sent: implicit 200, several writes, 1xx first, edits after commit, superfluous WriteHeader *)
@@ -22,7 +22,7 @@ Proof. exact capture_faithful. Qed.
 (* what the client reads from a hit equals what it read from the origin response, outside the ignored headers and the markers *)
 Theorem c14_replay_faithful :
   forall (p : pconf) (ignore : list str) (miss hit : str) (method : Z) 
-           (acts : list action) (exp : option Z) (s : stored) (u : under),
+           (acts : list action) (exp : option Z) (s : HttpModel.stored) (u : under),
          wrap_miss p ignore miss method acts exp = (Some s, u) ->
          miss = [] \/ ci_ignored ignore miss = true ->
          ci_ignored ignore hit = true ->
@@ -36,7 +36,7 @@ Proof. exact replay_faithful. Qed.
 (* hits carry HIT, misses carried MISS *)
 Theorem c14_markers :
   forall (p : pconf) (ignore : list str) (miss hit : str) (method : Z) 
-           (acts : list action) (exp : option Z) (s : stored) (u : under),
+           (acts : list action) (exp : option Z) (s : HttpModel.stored) (u : under),
          wrap_miss p ignore miss method acts exp = (Some s, u) ->
          ci_ignored ignore hit = true ->
          hget (client_header (snd (fst (replay s hit)))) (canon hit) = [s_HIT] /\
@@ -91,6 +91,96 @@ Theorem c14_hijack_excluded :
           c_wrote c = true /\ u_committed u = false /\ u_hijacked u = true /\ cacheable c = false.
 Proof. exact capture_faithful_hijack_refuted. Qed.
 
+(* isolation: no operation other than a store (handler, retaining policy or front writing through ANY reference they hold, further hits) changes what a hit delivers *)
+Theorem c14_alias_view_stable :
+  forall (s : ast) (op : list Z),
+         WF s -> (forall r : Z, op <> [4; r]) -> view (fst (al_step s op)) = view s.
+Proof. exact view_stable. Qed.
+
+(* isolation over every sequence of such operations *)
+Theorem c14_alias_view_stable_seq :
+  forall (ops : list (list Z)) (s : ast),
+         WF s ->
+         Forall (fun op : list Z => forall r : Z, op <> [4; r]) ops ->
+         view (fold_left (fun (s0 : ast) (o : list Z) => fst (al_step s0 o)) ops s) = view s.
+Proof. exact view_stable_seq. Qed.
+
+(* every hit of a run after the store delivers the view of the store, with an all-zero sharing report *)
+Theorem c14_alias_hits_constant :
+  forall (ops : list (list Z)) (s : ast),
+         WF s ->
+         Forall (fun op : list Z => forall r : Z, op <> [4; r]) ops ->
+         Forall (fun o : list Z => o = view s ++ [-3; 0; 0; 0]) (hit_outs s ops).
+Proof. exact hits_constant. Qed.
+
+(* a hit delivers exactly the stored view *)
+Theorem c14_alias_hit_output :
+  forall s : ast, WF s -> stored s <> None -> snd (hit s) = view s.
+Proof. exact hit_output. Qed.
+
+(* in every reachable state no reference held outside the middleware points into the stored response (header value arrays, body array, header map) *)
+Theorem c14_alias_no_sharing :
+  forall (ign : list Z) (ops : list (list Z)),
+         shares (fold_left (fun (s : ast) (o : list Z) => fst (al_step s o)) ops (init ign)) =
+         [0; 0; 0].
+Proof. exact reachable_shares_zero. Qed.
+
+(* what is stored is the committed header snapshot minus ignored keys and the captured body, as they are at the store *)
+Theorem c14_alias_store_view :
+  forall (s : ast) (r : bool),
+         WF s ->
+         committed s = true ->
+         view (store s r) =
+         status s
+         :: flat_map (fun e : Z * Z => fst e :: Z.of_nat (length (arr s (snd e))) :: arr s (snd e))
+              (filter (fun e : Z * Z => negb (zmem (ignored s) (fst e))) (hmap s (rwh s))) ++
+            [-2] ++ arr s (bufarr s).
+Proof. exact store_view. Qed.
+
+(* between the committing WriteHeader and the store the snapshot rw.headers cannot be altered by the handler (it is a private clone) *)
+Theorem c14_alias_snapshot_private :
+  forall (s : ast) (op : list Z),
+         WF s -> Priv s -> committed s = true -> snap (step s op) = snap s.
+Proof. exact snap_stable. Qed.
+
+(* the snapshot is the handler's header map at the committing WriteHeader *)
+Theorem c14_alias_commit_snapshot :
+  forall (s : ast) (code : Z),
+         committed s = false ->
+         WF s ->
+         snap (commit s code) = map (fun e : Z * Z => (fst e, arr s (snd e))) (hmap s (wmap s)).
+Proof. exact commit_snapshot. Qed.
+
+(* without slices.Clone in cachedHeaders a retaining policy alters later hits (the copy is necessary) *)
+Theorem c14_alias_nocloneH_refuted :
+  let s0 := store_nocloneH miss_done true in
+         view s0 = [200; 5; 2; 1; 2; -2; 7; 8; 9] /\
+         view (step s0 [5; 1; 0; 99]) = [200; 5; 2; 99; 2; -2; 7; 8; 9] /\
+         view (step s0 [5; 1; 0; 99]) <> view s0 /\ shares s0 = [1; 0; 0].
+Proof. exact nocloneH_refuted. Qed.
+
+(* without bytes.Clone of the body a retaining policy alters later hits *)
+Theorem c14_alias_nocloneB_refuted :
+  let s0 := store_nocloneB miss_done true in
+         view s0 = [200; 5; 2; 1; 2; -2; 7; 8; 9] /\
+         view (step s0 [5; 0; 0; 99]) = [200; 5; 2; 1; 2; -2; 99; 8; 9] /\
+         view (step s0 [5; 0; 0; 99]) <> view s0 /\
+         shares s0 = [0; 1; 0] /\
+         view (step (store_nocloneB miss_done false) [3; 4; 4; 4]) <>
+         view (store_nocloneB miss_done false).
+Proof. exact nocloneB_refuted. Qed.
+
+(* without slices.Clone in serveCached the front of the middleware alters later hits *)
+Theorem c14_alias_hit_noclone_refuted :
+  let s0 := store miss_done false in
+         let s1 := fst (hit_noclone s0) in
+         snd (hit_noclone s0) = view s0 /\
+         view s1 = view s0 /\
+         view (step s1 [5; 0; 0; 99]) = [200; 5; 2; 99; 2; -2; 7; 8; 9] /\
+         view (step s1 [5; 0; 0; 99]) <> view s0 /\
+         snd (hit_noclone (step s1 [5; 0; 0; 99])) <> snd (hit_noclone s0) /\ shares s1 = [1; 0; 0].
+Proof. exact hit_noclone_refuted. Qed.
+
 Print Assumptions c14_snapshot_faithful.
 Print Assumptions c14_replay_faithful.
 Print Assumptions c14_markers.
@@ -99,3 +189,14 @@ Print Assumptions c14_example_at_limit.
 Print Assumptions c14_example_over_limit.
 Print Assumptions c14_no_body_status_note.
 Print Assumptions c14_hijack_excluded.
+Print Assumptions c14_alias_view_stable.
+Print Assumptions c14_alias_view_stable_seq.
+Print Assumptions c14_alias_hits_constant.
+Print Assumptions c14_alias_hit_output.
+Print Assumptions c14_alias_no_sharing.
+Print Assumptions c14_alias_store_view.
+Print Assumptions c14_alias_snapshot_private.
+Print Assumptions c14_alias_commit_snapshot.
+Print Assumptions c14_alias_nocloneH_refuted.
+Print Assumptions c14_alias_nocloneB_refuted.
+Print Assumptions c14_alias_hit_noclone_refuted.
